@@ -17,3 +17,5 @@ MUTANTS = [
 ]
 MUTANTS.append(dict(name="union-member-order-memoised-per-type", file="core/cattrs_converter.py", expect="R14.6",
     old='def _structure_union(data: Any, union_type: type) -> Any:\n', new='from functools import lru_cache as _lru\n\n\n@_lru(maxsize=None)\ndef _ordered_members(union_type: Any) -> tuple:\n    return tuple(a for a in get_args(union_type) if a is not type(None))\n\n\ndef _structure_union(data: Any, union_type: type) -> Any:\n'))
+MUTANTS.append(dict(name="array-items-expanded-unless-object", file='types/resolvers/schema_resolver.py', expect="R14.7", old='            and getattr(items_schema, "type", None) in ("string", "integer", "number", "boolean")\n', new='            and getattr(items_schema, "type", None) != "object"\n'))
+MUTANTS.append(dict(name="mapping-fallback-folded-into-elif-chain", file='core/parsing/transformers/discriminator_enum_collector.py', expect="R14.8", old='            if not resolved_enum_values and variant_schema.name in discriminator_value_by_variant:\n', new='            elif variant_schema.name in discriminator_value_by_variant:\n'))
